@@ -10,10 +10,23 @@ def matrix(rng, sym, kind, pattern="monomial", square_vals=False, dtype="float64
         ixs = [ix0, gen.conj_index(ix0)]
         charge = (0, 0)
     elif pattern == "monomial_square":
-        # square blocks: the column index is the conjugate-table of the row index shifted by the charge
+        # square blocks for ANY total charge q: the column table is the row table with every charge shifted so
+        # that (row, column) conserves q, sizes unchanged
         ix0 = gen.rand_index(rng, sym, maxc, maxd)
-        ixs = [ix0, gen.conj_index(ix0)]
-        charge = (0, 0)
+        ix0["dual"] = rng.random() < 0.5
+        q = rng.choice(gen.CHARGE_POOL[sym]) if rng.random() < 0.6 else (0, 0)
+        d1 = rng.random() < 0.5
+        cols = []
+        for e in ix0["cm"]:
+            r = tuple(e["c"])
+            sr_ = gen.D.neg(sym, r) if ix0["dual"] else r
+            # sign(c, d1) = q - sign(r, d0)
+            t = gen.D.combine(sym, tuple(q), gen.D.neg(sym, sr_))
+            c = gen.D.neg(sym, t) if d1 else t
+            cols.append({"c": list(c), "d": e["d"]})
+        cols.sort(key=lambda e: tuple(e["c"]))
+        ixs = [ix0, {"dual": d1, "cm": cols}]
+        charge = tuple(q)
     else:
         ixs = [gen.rand_index(rng, sym, maxc, maxd), gen.rand_index(rng, sym, maxc, maxd)]
     x = gen.rand_array(rng, sym, 2, kind, ixs=ixs, charge=charge, dtype=dtype, sparse=0.0 if full else sparse,
@@ -131,7 +144,12 @@ def trunc_programs(seed, n, syms=gen.SYMS, kinds=("abelian", "fermionic"), tids=
         sym = syms[i % len(syms)]
         kind = kinds[(i // len(syms)) % len(kinds)]
         x = matrix(rng, sym, kind, pattern=rng.choice(["monomial", "monomial", "monomial_deficient"]),
-                   square_vals=True, maxc=3, maxd=3, start=rng.randint(1, 3))
+                   square_vals=True, maxc=3, maxd=3, start=rng.randint(1, 3), sparse=0.15)
+        if rng.random() < 0.6:
+            # make every index carry several charges of size 2-3: up to nine singular values
+            for ix in x["ix"]:
+                for e in ix["cm"]:
+                    e["d"] = max(e["d"], rng.randint(2, 3))
         steps = [{"op": "svd", "in": ["x"], "out": ["u", "s", "vh"], "args": {}}]
         mode = 1 + i % 6
         cuts = CUTS_ABS if mode in (1, 3, 5) else CUTS_REL
@@ -140,7 +158,7 @@ def trunc_programs(seed, n, syms=gen.SYMS, kinds=("abelian", "fermionic"), tids=
         chosen = sorted(rng.sample(range(len(cuts)), 4))
         prev = None
         for j in chosen:
-            mb = rng.choice([-1, -1, 1, 2, 3, 5])
+            mb = rng.choice([-1, 1, 2, 3, 4, 5, 6])
             base = {"cutoff": cuts[j], "cutoff_mode": mode, "max_bond": mb}
             tag = f"c{j}"
             steps.append({"op": "svd_truncated", "in": ["x"], "out": [f"U{tag}", f"S{tag}", f"V{tag}"],
